@@ -394,14 +394,14 @@ def mk_fn(name, *args):
         # gathering is substitution of the axis by the index: canonical form has `at` around leaf arrays only
         return index_at(Poly.from_key(args[0][2]), args[0][1], Poly.from_key(args[1][1]))
     if name in ('interp', 'lininterp') and len(args) >= 3 and args[0][0] == 'P' and args[1][0] == 'B':
-        # interpolation is unchanged when query and abscissa are rescaled by the same positive factor: a unit both are expressed in cancels
+        # interpolation is unchanged when query and abscissa are rescaled by the same positive factor: the canonical form carries no unit
+        # atom common to every term of the query (interp(0.55 micron; x) == interp(0.55; x / micron))
         qp, xp = Poly.from_key(args[0][1]), Poly.from_key(args[1][2])
         if not qp.is_zero() and not xp.is_zero():
             common = None
-            for pl in (qp, xp):
-                for m in pl.t:
-                    ue = {a: e for a, e in m if a[0] == 'sym' and a[1].startswith('unit:')}
-                    common = ue if common is None else {a: e for a, e in common.items() if ue.get(a) == e}
+            for m in qp.t:
+                ue = {a: e for a, e in m if a[0] == 'sym' and a[1].startswith('unit:')}
+                common = ue if common is None else {a: e for a, e in common.items() if ue.get(a) == e}
             if common:
                 f = Poly({tuple(sorted(((a, -e) for a, e in common.items()), key=lambda t: repr(t[0]))): Fraction(1)})
                 args = (P(qp * f), B(args[1][1], xp * f)) + tuple(args[2:])
